@@ -8,7 +8,12 @@ prettify, generate_sdmx, faithful to the current code).
 Tie K: every generated call (valid and invalid inputs: bad types, duplicates, missing columns, BOM-prefixed labels, extra
 columns, "" in numeric columns, wrong scripts, bad structures) and a sample of corpus scripts is executed with a DEEP
 snapshot of every argument before and after (dict/list structure and identity, DataFrame labels / dtypes / index / cell
-values / object identities, scalar dicts, value-domain and external-routine dicts, pysdmx objects).  The observed set of
+values / object identities, scalar dicts, value-domain and external-routine dicts, pysdmx objects) AND compared with a deep copy
+taken before the call (DataFrame.equals + dtypes + index + column order; files by digest).  data_structures are generated in
+every accepted spelling (optional keys such as `nullable` omitted, type/data_type, role spellings, inline DataStructure vs
+structures+datasets reference form) and handed over as dict, list, split list, Path or str path; value domains / external
+routines as dict, list or file; the public calls are run, run_sdmx, semantic_analysis, validate_dataset, validate_value_domain,
+validate_external_routine, prettify, generate_sdmx, create_ast, with succeeding and failing inputs.  The observed set of
 modified aspects per argument is compared with the model's `caller_view` for the same input class and stop position
 (coq_eval).  Independently of the model every CONTENT change of an argument is a violation of the property.
 Secondary (never decides): a Python-ast scan listing in-place pandas/dict operations on names aliasing parameters."""
@@ -121,12 +126,75 @@ COMPS = [("Id_1", "Integer", "Identifier", False), ("Me_1", "Number", "Measure",
          ("At_1", "Integer", "Attribute", True)]
 
 
-def structs_for(names, scalars=False):
+SPELL_FEATURES = ["nullable_omitted", "nullable_given", "type_key", "data_type_key", "description_key", "viral_spelling_1", "viral_spelling_2",
+                  "inline_form", "ref_form", "dataset_extras", "scalar_data_type_key", "scalar_nullable_given"]
+
+
+def structs_for(names, scalars=False, rng=None, allow_viral=False, spell=None):
+    """VTL JSON structures for `names` (all with COMPS).  With an rng the structure is written in one of the ACCEPTED SPELLINGS:
+    optional keys omitted (`nullable` -- the loader defaults it from the role --, `description`), `type` vs `data_type`,
+    the two spellings of the viral-attribute role, the inline `DataStructure` list vs the `structures` + `datasets[].structure`
+    referencing form, optional dataset keys.  The omitted defaults equal the values of COMPS, so the meaning is unchanged."""
     import engine
-    d = engine.structures(*[engine.ds_struct(n, COMPS) for n in names])
+    if rng is None:
+        d = engine.structures(*[engine.ds_struct(n, COMPS) for n in names])
+        if scalars:
+            d["scalars"] = [{"name": "sc_in", "type": "Integer"}]
+        return d
+    spell = spell if spell is not None else []
+
+    def comp(n, t, r, nl):
+        c = {"name": n}
+        if rng.random() < 0.5:
+            c["type"] = t
+            spell.append("type_key")
+        else:
+            c["data_type"] = t
+            spell.append("data_type_key")
+        if allow_viral and r == "Attribute" and rng.random() < 0.5:
+            r = rng.choice(["Viral Attribute", "ViralAttribute"])
+            spell.append("viral_spelling_1" if r == "Viral Attribute" else "viral_spelling_2")
+        c["role"] = r
+        if rng.random() < 0.6:
+            spell.append("nullable_omitted")
+        else:
+            c["nullable"] = nl
+            spell.append("nullable_given")
+        if rng.random() < 0.2:
+            c["description"] = "a component"
+            spell.append("description_key")
+        return c
+
+    def dataset_extras(dj):
+        if rng.random() < 0.25:
+            dj["description"] = "a dataset"
+            dj["source"] = "somewhere"
+            spell.append("dataset_extras")
+        return dj
+
+    if rng.random() < 0.35:
+        spell.append("ref_form")
+        d = {"structures": [{"name": "STR_1", "components": [comp(*c) for c in COMPS]}],
+             "datasets": [dataset_extras({"name": n, "structure": "STR_1"}) for n in names]}
+    else:
+        spell.append("inline_form")
+        d = {"datasets": [dataset_extras({"name": n, "DataStructure": [comp(*c) for c in COMPS]}) for n in names]}
     if scalars:
-        d["scalars"] = [{"name": "sc_in", "type": "Integer"}]
+        sc = {"name": "sc_in"}
+        if rng.random() < 0.5:
+            sc["type"] = "Integer"
+        else:
+            sc["data_type"] = "Integer"
+            spell.append("scalar_data_type_key")
+        if rng.random() < 0.3:
+            sc["nullable"] = True
+            spell.append("scalar_nullable_given")
+        d["scalars"] = [sc]
     return d
+
+
+STRUCT_CONTAINERS = ["dict", "dict", "list1", "list_split", "file", "str_file", "list_file"]
+LIB_CONTAINERS = ["dict", "dict", "list", "file"]
 
 
 def frame_spec(rng, cls, fail):
@@ -169,7 +237,7 @@ def make_df(rng, cls, fail):
     return df_from_spec(frame_spec(rng, cls, fail))
 
 
-def gen_calls(rng, n_validate, n_run, n_other):
+def gen_calls(rng, n_validate, n_run, n_other, n_lib=0):
     """Each call: dict(api, args(kwargs), kinds {argname: kind}, model (skeleton expr, nc, k) or None, label)."""
     calls = []
     classes = [(b, m, e) for b in (False, True) for m in (False, True) for e in (False, True)]
@@ -217,6 +285,7 @@ def gen_calls(rng, n_validate, n_run, n_other):
         calls.append(other_call(rng, "prettify", s, i))
         calls.append(other_call(rng, "generate_sdmx", s, i))
         calls.append(other_call(rng, "run_sdmx", s, i))
+    calls += lib_calls(rng, n_lib)
     return calls
 
 
@@ -241,7 +310,11 @@ def stop_k(dfs):
 
 def validate_call(rng, dfs, odd=None):
     names = [d[0] for d in dfs]
-    structs = structs_for(names, scalars=odd in ("scalars_bad", "scalars_ok"))
+    spell = []
+    plain_spelling = odd in ("structs_badtype", "structs_nodatastructure")
+    structs = structs_for(names, scalars=odd in ("scalars_bad", "scalars_ok") or (odd is None and rng.random() < 0.3),
+                          rng=None if plain_spelling else rng, allow_viral=True, spell=spell)
+    container = "dict" if plain_spelling else rng.choice(STRUCT_CONTAINERS)
     frames = {nm: frame_spec(rng, c, f) for nm, c, f in dfs}
     sv = None
     dp_mode = "frames"
@@ -273,12 +346,16 @@ def validate_call(rng, dfs, odd=None):
         model = None
     label = "validate_dataset:" + "+".join(f"{''.join('BME'[i] for i in range(3) if c[i]) or 'plain'}/{f or 'ok'}" for _, c, f in dfs) + (":" + odd if odd else "")
     return {"api": "validate_dataset", "args": {"data_structures": structs, "scalar_values": sv}, "frames": frames, "dp_mode": dp_mode,
-            "model": model, "label": label, "odd": odd, "dfs": [[nm, list(c), f] for nm, c, f in dfs]}
+            "model": model, "label": label, "odd": odd, "dfs": [[nm, list(c), f] for nm, c, f in dfs], "spell": spell,
+            "structs_container": container}
 
 
 def run_call(rng, dfs, script, label_extra="", with_extras=False, out=False, scalars=None, with_scalar_struct=False, odd=None):
     names = [d[0] for d in dfs]
-    structs = structs_for(names, scalars=with_scalar_struct)
+    spell = []
+    plain_spelling = odd in ("structs_badtype", "structs_list")
+    structs = structs_for(names, scalars=with_scalar_struct or (odd is None and rng.random() < 0.3), rng=None if plain_spelling else rng, spell=spell)
+    container = "dict" if plain_spelling else rng.choice(STRUCT_CONTAINERS)
     frames = {nm: frame_spec(rng, c, f) for nm, c, f in dfs}
     args = {"script": script, "data_structures": structs}
     dp_mode = "frames"
@@ -298,19 +375,24 @@ def run_call(rng, dfs, script, label_extra="", with_extras=False, out=False, sca
     label = "run:" + "+".join(f"{''.join('BME'[i] for i in range(3) if c[i]) or 'plain'}/{f or 'ok'}" for _, c, f in dfs) + \
             (":" + label_extra if label_extra else "") + (":" + odd if odd else "") + (":out" if out else "")
     return {"api": "run", "args": args, "frames": frames, "dp_mode": dp_mode, "model": ("run_impl_o false", [c for _, c, _ in dfs], 10_000),
-            "label": label, "out": out, "odd": odd, "dfs": [[nm, list(c), f] for nm, c, f in dfs]}
+            "label": label, "out": out, "odd": odd, "dfs": [[nm, list(c), f] for nm, c, f in dfs], "spell": spell,
+            "structs_container": container, "lib_container": rng.choice(LIB_CONTAINERS) if with_extras else "dict"}
 
 
 def other_call(rng, api, script, i):
-    structs = structs_for(["DS_1"])
     if api == "semantic_analysis":
+        spell = []
+        structs = structs_for(["DS_1"], rng=rng, spell=spell)
         args = {"script": script, "data_structures": structs}
+        container = rng.choice(STRUCT_CONTAINERS)
         if i % 2 == 0:
             args["value_domains"] = copy.deepcopy(VD)
             args["external_routines"] = copy.deepcopy(ER)
         if i % 5 == 4:
             args["data_structures"] = [structs, {"datasets": [{"name": "DS_1"}]}]
-        return {"api": api, "args": args, "model": ("semantic_o", None, 10_000), "label": f"semantic_analysis:{i}"}
+            container = "dict"
+        return {"api": api, "args": args, "model": ("semantic_o", None, 10_000), "label": f"semantic_analysis:{i}", "spell": spell,
+                "structs_container": container, "lib_container": rng.choice(LIB_CONTAINERS)}
     if api == "prettify":
         return {"api": api, "args": {"script": script if i % 4 else 12345}, "model": ("prettify_o", None, 10_000), "label": f"prettify:{i}", "ts": i % 4 == 2}
     if api == "generate_sdmx":
@@ -320,6 +402,109 @@ def other_call(rng, api, script, i):
     return {"api": "run_sdmx", "args": {"script": script if i % 3 else "DS_r <- DS_1 [calc Me_3 := Me_1 * 2];"},
             "sdmx": {"frame": frame_spec(rng, cls, fail), "with_mapping": i % 2 == 0},
             "model": ("run_sdmx_o", [cls], 10_000), "label": f"run_sdmx:{i}"}
+
+
+VD_VARIANTS = [("ok", {"name": "VD_1", "type": "Integer", "setlist": [1, 2, 3]}), ("ok_str", {"name": "VD_2", "type": "String", "setlist": ["a", "b"]}),
+               ("missing_setlist", {"name": "VD_1", "type": "Integer"}), ("dup_values", {"name": "VD_1", "type": "Integer", "setlist": [1, 1]}),
+               ("bad_type", {"name": "VD_1", "type": "Floating", "setlist": [1]}), ("wrong_items", {"name": "VD_1", "type": "String", "setlist": [1, 2]}),
+               ("extra_key", {"name": "VD_1", "type": "Integer", "setlist": [1], "zz": 0}), ("not_a_dict", 5)]
+ER_VARIANTS = [("ok", {"name": "SQL_1", "query": "SELECT Id_1, Me_1 FROM DS_1"}), ("ok_join", {"name": "SQL_2", "query": "SELECT a.Id_1 FROM DS_1 a JOIN DS_2 b ON a.Id_1 = b.Id_1"}),
+               ("missing_query", {"name": "SQL_1"}), ("bad_sql", {"name": "SQL_1", "query": "SELEC FROM WHERE ((("}),
+               ("extra_key", {"name": "SQL_1", "query": "SELECT 1", "zz": 0}), ("not_a_dict", "SELECT 1")]
+AST_TEXTS = ["DS_r <- DS_1 * 2;", "DS_r := DS_1 [calc Me_3 := Me_1 + 1]; DS_s <- DS_r;", "DS_r <- DS_1 [calc Me_3 := ;", "", "define operator f (x integer) returns integer is x + 1 end operator;"]
+
+
+def lib_calls(rng, n):
+    calls = []
+    for i in range(n):
+        tag, v = VD_VARIANTS[i % len(VD_VARIANTS)]
+        cont = "dict" if not isinstance(v, dict) else LIB_CONTAINERS[(i // len(VD_VARIANTS)) % len(LIB_CONTAINERS)]
+        calls.append({"api": "validate_value_domain", "args": {"input": copy.deepcopy(v)}, "lib_container": cont,
+                      "model": ("validate_vd_o", None, 10_000), "label": f"validate_value_domain:{tag}:{cont}"})
+        tag, v = ER_VARIANTS[i % len(ER_VARIANTS)]
+        cont = "dict" if not isinstance(v, dict) else LIB_CONTAINERS[(i // len(ER_VARIANTS)) % len(LIB_CONTAINERS)]
+        calls.append({"api": "validate_external_routine", "args": {"input": copy.deepcopy(v)}, "lib_container": cont,
+                      "model": ("validate_er_o", None, 10_000), "label": f"validate_external_routine:{tag}:{cont}"})
+        calls.append({"api": "create_ast", "args": {"text": AST_TEXTS[i % len(AST_TEXTS)]}, "model": ("create_ast_o", None, 10_000),
+                      "label": f"create_ast:{i % len(AST_TEXTS)}"})
+    return calls
+
+
+def contain_structs(ds, cont, work: Path):
+    """the caller-side object in which the structures are handed over"""
+    if not isinstance(ds, dict) or cont == "dict":
+        return ds
+    if cont == "list1":
+        return [ds]
+    if cont == "list_split":
+        if "structures" in ds:
+            return [ds]
+        parts = [{"datasets": [d]} for d in ds.get("datasets", [])]
+        if ds.get("scalars"):
+            parts.append({"scalars": ds["scalars"]})
+        return parts
+    p = work / "structs.json"
+    p.write_text(json.dumps(ds))
+    return {"file": p, "str_file": str(p), "list_file": [p]}[cont]
+
+
+def contain_lib(v, cont, work: Path, stem):
+    if not isinstance(v, dict) or cont == "dict":
+        return v
+    if cont == "list":
+        other = dict(v, name=v.get("name", "X") + "_b")
+        return [v, other]
+    p = work / f"{stem}.json"
+    p.write_text(json.dumps(v))
+    return p
+
+
+def file_digests(args):
+    import hashlib
+    out = {}
+
+    def walk(o):
+        if isinstance(o, Path) and o.is_file():
+            out[str(o)] = hashlib.sha1(o.read_bytes()).hexdigest()
+        elif isinstance(o, str) and len(o) < 300 and o.endswith(".json") and os.path.isfile(o):
+            out[o] = hashlib.sha1(Path(o).read_bytes()).hexdigest()
+        elif isinstance(o, dict):
+            for v in o.values():
+                walk(v)
+        elif isinstance(o, (list, tuple)):
+            for v in o:
+                walk(v)
+    walk(args)
+    return out
+
+
+def deep_copy_of(o):
+    try:
+        return True, copy.deepcopy(o)
+    except Exception:
+        return False, None
+
+
+def deep_equal(a, b):
+    """the caller object against the deep copy taken before the call (independent of snap/diff)"""
+    pd = K16.eng()["pd"]
+    if isinstance(a, pd.DataFrame) or isinstance(b, pd.DataFrame):
+        return (isinstance(a, pd.DataFrame) and isinstance(b, pd.DataFrame) and list(a.columns) == list(b.columns)
+                and a.index.equals(b.index) and [str(t) for t in a.dtypes] == [str(t) for t in b.dtypes] and a.equals(b)
+                and a.attrs == b.attrs)
+    if type(a) is not type(b):
+        return False
+    if isinstance(a, dict):
+        return list(a.keys()) == list(b.keys()) and all(deep_equal(a[k], b[k]) for k in a)
+    if isinstance(a, (list, tuple)):
+        return len(a) == len(b) and all(deep_equal(x, y) for x, y in zip(a, b))
+    if hasattr(a, "__struct_fields__"):
+        return all(deep_equal(getattr(a, f), getattr(b, f)) for f in a.__struct_fields__)
+    try:
+        r = a == b
+        return bool(r) or (a != a and b != b)
+    except Exception:
+        return repr(a) == repr(b)
 
 
 # ------------------------------------------------------------------------------------------------- executing
@@ -350,13 +535,26 @@ def arg_objects(call, args):
     if call["api"] == "run_sdmx":
         objs[1] = args.get("datasets")
         dfs = [d.data for d in args.get("datasets", [])]
+    if call["api"] == "validate_value_domain":
+        objs[3] = args.get("input")
+    if call["api"] == "validate_external_routine":
+        objs[4] = args.get("input")
     return objs, dfs
 
 
 def execute(call, rng, work: Path):
     E = K16.eng()
     vtl = E["vtl"]
-    args = dict(call["args"])
+    args = copy.deepcopy(call["args"])  # the recorded call stays pristine (it is what a replay stores)
+    if "data_structures" in args:
+        args["data_structures"] = contain_structs(args["data_structures"], call.get("structs_container", "dict"), work)
+    lc = call.get("lib_container", "dict")
+    if args.get("value_domains") is not None:
+        args["value_domains"] = contain_lib(args["value_domains"], lc, work, "VD_1")
+    if args.get("external_routines") is not None:
+        args["external_routines"] = contain_lib(args["external_routines"], lc, work, "SQL_1")
+    if call["api"] in ("validate_value_domain", "validate_external_routine"):
+        args["input"] = contain_lib(args["input"], lc, work, "VD_1" if call["api"] == "validate_value_domain" else "SQL_1")
     if call.get("out"):
         args["output_folder"] = work / "out"
     if "frames" in call:
@@ -392,19 +590,31 @@ def execute(call, rng, work: Path):
         except Exception:
             pass
     extra_named = {k: v for k, v in args.items() if k not in ARG_ORDER and k not in ("datapoints", "datasets")}
+    if call["api"] in ("validate_value_domain", "validate_external_routine"):
+        extra_named.pop("input", None)
     objs, dfs = arg_objects(call, args)
     before = [snap(o) for o in objs] + [snap(d) for d in dfs] + [snap(extra_named)]
+    copies = [deep_copy_of(o) for o in objs + dfs + [extra_named]]
+    files_before = file_digests(args)
     K16.reset_globals()
     try:
         getattr(vtl, call["api"])(**args)
         outcome = ("ok", None)
+    except SystemExit:
+        raise
     except Exception as e:  # noqa
         outcome = (type(e).__name__, (e.args[1] if len(e.args) > 1 else None) or str(e)[:120])
     after = [snap(o) for o in objs] + [snap(d) for d in dfs] + [snap(extra_named)]
+    files_after = file_digests(args)
     observed = []
     details = []
     for i, (a, b) in enumerate(zip(before, after)):
         d = diff(a, b)
+        okc, cp = copies[i]
+        if okc and not deep_equal((objs + dfs + [extra_named])[i], cp) and not any(TAG[x[1]] != 0 for x in d):
+            d = d + [("", "other", "deep copy taken before the call", "differs from the object after the call")]
+        if i == len(before) - 1 and files_before != files_after:
+            d = d + [("", "other", {"files": files_before}, {"files": files_after})]
         ts = {TAG[x[1]] for x in d}
         if ts & {1, 2}:
             ts.add(0)  # new labels / a new column always come with a new columns Index object
@@ -484,7 +694,10 @@ def ast_scan():
 MODEL_SITES = [("API/__init__.py", "run", "datapoints[url_name] = ..."), ("API/__init__.py", "run", "del datapoints[url_name]")]
 # functions whose skeleton has NO write to a caller object although they receive one
 MODEL_CLEAN_FUNCS = [("files/parser/__init__.py", "_validate_pandas"), ("duckdb_transpiler/io/_io.py", "register_dataframes"),
-                     ("duckdb_transpiler/io/_io.py", "extract_datapoint_paths")]
+                     ("duckdb_transpiler/io/_io.py", "extract_datapoint_paths")] + \
+                    [("API/_InternalApi.py", f) for f in ("_build_component", "_extract_data_type", "_resolve_components", "_load_dataset_from_structure",
+                                                          "_load_datastructure_single", "load_datasets", "load_value_domains", "load_external_routines",
+                                                          "_validate_json", "load_datasets_with_data", "_load_datapoints_path")]
 
 
 # --------------------------------------------------------------------------------------------------------- run
@@ -497,11 +710,11 @@ def run(ctx):
     E = K16.eng()
     ctx.prove("C22")
     quick = ctx.tier == "quick"
-    n_validate, n_run, n_other, n_corpus = (160, 80, 16, 12) if quick else (600, 300, 60, 80)
+    n_validate, n_run, n_other, n_corpus, n_lib = (160, 80, 24, 12, 24) if quick else (600, 300, 80, 80, 96)
     rng = ctx.rng
     ctx.cov["rule"] = ("every generated call (all 8 DataFrame classes x every stop position of validate_dataset first, then random; invalid "
                        "structures / names / types / scripts) x deep snapshot of every argument; distinct = (api, input label)")
-    calls = gen_calls(rng, n_validate, n_run, n_other)
+    calls = gen_calls(rng, n_validate, n_run, n_other, n_lib)
     work = Path(tempfile.mkdtemp(prefix="c22_"))
     try:
         _run(ctx, E, calls, n_corpus, rng, work)
@@ -558,7 +771,8 @@ def _run(ctx, E, calls, n_corpus, rng, work):
         idx.append(ci)
     vals = common.coq_eval(COQ_HEADER, exprs, "c22")
     pred = dict(zip(idx, vals))
-    hist = {"calls": 0, "by_api": {}, "outcomes": {}, "content_mutations": 0, "identity_only": 0, "tie_compared": 0, "tie_disagree": 0}
+    hist = {"calls": 0, "by_api": {}, "outcomes": {}, "content_mutations": 0, "identity_only": 0, "tie_compared": 0, "tie_disagree": 0,
+            "spellings": {}, "spellings_in_successful_calls": {}, "structs_containers": {}, "lib_containers": {}}
     tie_bad = []
     verdicts = {}
     for ci, call in enumerate(calls):
@@ -567,7 +781,17 @@ def _run(ctx, E, calls, n_corpus, rng, work):
         hist["by_api"][call["api"]] = hist["by_api"].get(call["api"], 0) + 1
         ok_key = "ok" if outcome[0] == "ok" else f"{outcome[0]}:{outcome[1]}"[:40]
         hist["outcomes"][ok_key] = hist["outcomes"].get(ok_key, 0) + 1
-        ctx.count((call["api"], call["label"]))
+        ctx.count((call["api"], call["label"], call.get("structs_container"), tuple(sorted(set(call.get("spell", []))))))
+        for f in set(call.get("spell", [])):
+            hist["spellings"][f] = hist["spellings"].get(f, 0) + 1
+            if outcome[0] == "ok":
+                hist["spellings_in_successful_calls"][f] = hist["spellings_in_successful_calls"].get(f, 0) + 1
+        if "structs_container" in call:
+            c = call["structs_container"]
+            hist["structs_containers"][c] = hist["structs_containers"].get(c, 0) + 1
+        if call.get("lib_container"):
+            c = call["lib_container"]
+            hist["lib_containers"][c] = hist["lib_containers"].get(c, 0) + 1
         # ---- the property itself
         for i, d in details:
             slot = slot_name(i, call) if i < len(observed) - 1 else "other-arguments"
@@ -579,6 +803,8 @@ def _run(ctx, E, calls, n_corpus, rng, work):
                 hist["content_mutations"] += 1
                 verdicts.setdefault((call["api"], slot, TAG_NAME[t]), 0)
                 verdicts[(call["api"], slot, TAG_NAME[t])] += 1
+                if verdicts[(call["api"], slot, TAG_NAME[t])] > 1:
+                    continue  # one violation (the first input found) per (api, argument, aspect); the count is in the evidence
                 ctx.violation(key_of(call["api"], slot, t),
                               f"{call['api']}() modifies the caller's {slot} ({TAG_NAME[t]}): {json.dumps(b, default=str)[:160]} -> "
                               f"{json.dumps(a, default=str)[:160]}; call {call['label']} ended with {outcome}",
@@ -602,8 +828,15 @@ def _run(ctx, E, calls, n_corpus, rng, work):
     ctx.oblige("tie: observed modified aspects per argument equal the ownership model's caller_view for the same input class and stop position",
                not tie_bad, json.dumps(tie_bad[:3], default=str))
     ctx.oblige("every API was exercised with succeeding and failing calls",
-               all(hist["by_api"].get(a, 0) > 0 for a in ("run", "run_sdmx", "semantic_analysis", "validate_dataset", "prettify", "generate_sdmx"))
+               all(hist["by_api"].get(a, 0) > 0 for a in ("run", "run_sdmx", "semantic_analysis", "validate_dataset", "prettify", "generate_sdmx",
+                                                           "validate_value_domain", "validate_external_routine", "create_ast"))
                and hist["outcomes"].get("ok", 0) > 0 and len(hist["outcomes"]) > 3, json.dumps(hist["by_api"]))
+    miss = [f for f in SPELL_FEATURES if hist["spellings_in_successful_calls"].get(f, 0) == 0]
+    ctx.oblige("every accepted spelling of data_structures (optional keys omitted, type/data_type, role spellings, inline/ref form, dataset "
+               "extras) occurred in at least one SUCCESSFUL call, and every container form (dict, list, split list, file, str path) was used",
+               not miss and all(hist["structs_containers"].get(c, 0) > 0 for c in set(STRUCT_CONTAINERS))
+               and all(hist["lib_containers"].get(c, 0) > 0 for c in set(LIB_CONTAINERS)),
+               f"never successful: {miss}; containers {hist['structs_containers']} {hist['lib_containers']}")
     # ---- secondary ast scan
     try:
         sites = ast_scan()
@@ -611,7 +844,7 @@ def _run(ctx, E, calls, n_corpus, rng, work):
         missing = [m for m in MODEL_SITES if not any(f == m[0] and fn == m[1] and w == m[2] for f, fn, ln, w in sites)]
         unexpected = [f"{f}:{fn}:{ln}: {w}" for f, fn, ln, w in sites if (f, fn) in MODEL_CLEAN_FUNCS]
         ctx.cov["ast_scan_secondary"] = ("every Mutate-on-caller site of the model is listed by the scan and the scan lists none in "
-                                         "_validate_pandas / register_dataframes / extract_datapoint_paths" if not missing and not unexpected
+                                         "the loaders the model holds clean (_validate_pandas, register_dataframes, structure / value-domain / routine loaders)" if not missing and not unexpected
                                          else f"secondary tie disagrees (never decides): model sites not found {missing}; "
                                               f"sites in functions the model holds clean {unexpected}")
     except Exception as e:
